@@ -168,7 +168,7 @@ func genGenesisDoc(r *rng.R) *orbtypes.GenesisState {
 		for i := r.Intn(4); i > 0; i-- {
 			in := rng.Pick(r, []*big.Int{big.NewInt(0), big.NewInt(1), big.NewInt(1000), bigAdd(pow2(256), -1), big.NewInt(-1), pow2(200)})
 			out := rng.Pick(r, []*big.Int{big.NewInt(0), big.NewInt(1), big.NewInt(999), bigAdd(pow2(256), -1), big.NewInt(-5)})
-			e := dispatchertypes.DispatchedAmountEntry{SourceId: genCCID(r), DestinationId: genCCID(r), Denom: rng.Pick(r, []string{"uusdc", "ufoo", "", "a/b"}),
+			e := dispatchertypes.DispatchedAmountEntry{SourceId: genCCID(r), DestinationId: genCCID(r), Denom: rng.Pick(r, []string{"uusdc", "ufoo", "", "a/b", "a\x00b", "a b", "1bad", "x", "uusdc\x00"}),
 				AmountDispatched: dispatchertypes.AmountDispatched{Incoming: math.NewIntFromBigInt(in), Outgoing: math.NewIntFromBigInt(out)}}
 			d.DispatchedAmounts = append(d.DispatchedAmounts, e)
 			if r.Chance(15) {
@@ -215,7 +215,7 @@ func genValidishDoc(r *rng.R) *orbtypes.GenesisState {
 		if in.Sign() == 0 && out.Sign() == 0 && r.Chance(80) {
 			in = big.NewInt(5)
 		}
-		e := dispatchertypes.DispatchedAmountEntry{SourceId: genCCID(r), DestinationId: genCCID(r), Denom: rng.Pick(r, []string{"uusdc", "ufoo", "a/b"}),
+		e := dispatchertypes.DispatchedAmountEntry{SourceId: genCCID(r), DestinationId: genCCID(r), Denom: rng.Pick(r, []string{"uusdc", "ufoo", "a/b", "uusdc", "ufoo", "a\x00b", "1bad"}),
 			AmountDispatched: dispatchertypes.AmountDispatched{Incoming: math.NewIntFromBigInt(in), Outgoing: math.NewIntFromBigInt(out)}}
 		d.DispatchedAmounts = append(d.DispatchedAmounts, e)
 		if r.Chance(15) {
